@@ -201,4 +201,641 @@ theorem trim_pad (w1 n w2 : Str) (h1 : wsOk w1 = true) (h2 : wsOk w2 = true)
     rw [List.cons_append, trimStart_cons _ _ (hn c (by simp)), ← List.cons_append,
       trimEnd_append_ws _ _ h2, trimEnd_noWs _ hn]
 
+/-! ### printed lists -/
+
+theorem printL_append (a b : List Item) : printL (a ++ b) = printL a ++ printL b := by
+  induction a with
+  | nil => simp [printL]
+  | cons i is ih => simp [printL, ih]
+
+theorem evalSrc_append (ρ : Eval.Env) (a b : List Item) :
+    evalSrc ρ (a ++ b) = evalSrc ρ a ++ evalSrc ρ b := by
+  induction a with
+  | nil => simp [evalSrc]
+  | cons i is ih => simp [evalSrc, ih]
+
+theorem printI_var_append (n w1 w2 x : Str) :
+    printI (.var n w1 w2) ++ x = '{' :: '{' :: (w1 ++ (n ++ (w2 ++ '}' :: '}' :: x))) := by
+  simp [printI]
+
+theorem printI_comp_append (n w1 w2 w3 w4 w5 : Str) (kids : List Item) (x : Str) :
+    printI (.comp n w1 w2 w3 w4 w5 kids) ++ x =
+      '<' :: (w1 ++ (n ++ (w2 ++ '>' :: (printL kids ++
+        '<' :: (w4 ++ '/' :: (w3 ++ (n ++ (w5 ++ '>' :: x)))))))) := by
+  simp [printI, openTag, closeTag]
+
+theorem contains_false (d : Char) (s : Str) : Str.contains d s = false ↔ d ∉ s := by
+  simp only [Str.contains, List.any_eq_false, beq_iff_eq]
+  constructor
+  · intro h hm; exact h d hm rfl
+  · intro h x hx e; subst e; exact h hx
+
+theorem textOk_spec {s x : Str} (h : textOk s x = true) :
+    '<' ∉ s ∧ occIn ['{', '{'] s x = false ∧ occIn ['$', 't', '('] s x = false := by
+  simp only [textOk, Bool.and_eq_true, Bool.not_eq_true', contains_false] at h
+  exact ⟨h.1.1, h.1.2, h.2⟩
+
+theorem wfI_mono (i : Item) (x y : Str) (h : wfI i (x ++ y) = true) : wfI i x = true := by
+  cases i with
+  | text s =>
+    simp only [wfI] at h ⊢
+    obtain ⟨a, b, c⟩ := textOk_spec h
+    have a' : Str.contains '<' s = false := (contains_false _ _).2 a
+    simp [textOk, a', occIn_mono _ _ _ _ b, occIn_mono _ _ _ _ c]
+  | var n w1 w2 => simpa [wfI] using h
+  | comp n w1 w2 w3 w4 w5 kids => simpa [wfI] using h
+
+theorem wfL_append_right (a b : List Item) (h : wfL (a ++ b) = true) : wfL b = true := by
+  induction a with
+  | nil => simpa using h
+  | cons i is ih =>
+    simp only [List.cons_append, wfL, Bool.and_eq_true] at h
+    exact ih h.2
+
+theorem wfL_append_left (a b : List Item) (h : wfL (a ++ b) = true) : wfL a = true := by
+  induction a with
+  | nil => rfl
+  | cons i is ih =>
+    simp only [List.cons_append, wfL, Bool.and_eq_true, printL_append] at h ⊢
+    exact ⟨wfI_mono _ _ _ h.1, ih h.2⟩
+
+theorem wfL_cons {i : Item} {is : List Item} (h : wfL (i :: is) = true) :
+    wfI i (printL is) = true ∧ wfL is = true := by
+  simpa [wfL] using h
+
+def AllText (t : List Item) : Prop := ∀ i ∈ t, isText i = true
+def CompFree (t : List Item) : Prop := ∀ i ∈ t, isComp i = false
+
+/-- for a run of text items followed by `rest`: no `<` in it, no `{{` and no `$t(` starts in it -/
+theorem texts_spec (texts rest : List Item) (ht : AllText texts) (h : wfL (texts ++ rest) = true) :
+    '<' ∉ printL texts ∧ occIn ['{', '{'] (printL texts) (printL rest) = false ∧
+      occIn ['$', 't', '('] (printL texts) (printL rest) = false := by
+  induction texts with
+  | nil => simp [printL, occIn]
+  | cons i is ih =>
+    have hi := ht i (by simp)
+    have his : AllText is := fun j hj => ht j (by simp [hj])
+    cases i with
+    | text s =>
+      have h' : wfL (Item.text s :: (is ++ rest)) = true := h
+      obtain ⟨h1, h2⟩ := wfL_cons h'
+      obtain ⟨a, b, c⟩ := ih his h2
+      simp only [wfI, printL_append] at h1
+      obtain ⟨a', b', c'⟩ := textOk_spec h1
+      simp only [printL, printI, occIn_append, b, b', c, c', Bool.or_false, List.mem_append]
+      exact ⟨fun hm => hm.elim a' a, trivial, trivial⟩
+    | var => simp [isText] at hi
+    | comp => simp [isText] at hi
+
+theorem texts_eval (ρ : Eval.Env) (texts : List Item) (ht : AllText texts) :
+    evalSrc ρ texts = printL texts := by
+  induction texts with
+  | nil => rfl
+  | cons i is ih =>
+    have hi := ht i (by simp)
+    have his : AllText is := fun j hj => ht j (by simp [hj])
+    cases i with
+    | text s => simp [evalSrc, evalI, printL, printI, ih his]
+    | var => simp [isText] at hi
+    | comp => simp [isText] at hi
+
+/-! ### names and tags -/
+
+theorem name_notin {n : Str} (h : n.all nameChar = true) {d : Char} (hd : nameChar d = false) :
+    d ∉ n := by
+  intro hm
+  have := name_mem h d hm
+  rw [this] at hd; cases hd
+
+theorem name_noWs {n : Str} (h : n.all nameChar = true) : ∀ c ∈ n, isWs c = false :=
+  fun c hc => (nameChar_spec (name_mem h c hc)).1
+
+theorem nameOk_spec {pre n : Str} (h : nameOk pre n = true) :
+    n.all nameChar = true ∧ Key.new (pre ++ n) = some (pre ++ n) := by
+  simpa [nameOk] using h
+
+/-- a character that is neither whitespace nor a name character is not in `w1 name w2` -/
+theorem pad_notin {w1 n w2 : Str} (h1 : wsOk w1 = true) (hn : n.all nameChar = true)
+    (h2 : wsOk w2 = true) {d : Char} (hd : isWs d = false) (hd' : nameChar d = false) :
+    d ∉ w1 ++ (n ++ w2) := by
+  simp only [List.mem_append, not_or]
+  exact ⟨ws_notin h1 hd, name_notin hn hd', ws_notin h2 hd⟩
+
+/-! ### no `$t(` in a printed well-formed list -/
+
+/-- what follows a printed list: nothing, or a tag -/
+def Stop (z : Str) : Prop := z = [] ∨ ∃ y, z = '<' :: y
+
+theorem occIn_stop' (pat s x z : Str) (hp : '<' ∉ pat) (hz : Stop z) (h : occIn pat s x = false) :
+    occIn pat s (x ++ z) = false := by
+  rcases hz with rfl | ⟨y, rfl⟩
+  · simpa using h
+  · rw [occIn_stop _ _ _ _ _ hp]; exact h
+
+theorem printI_comp_eq (n w1 w2 w3 w4 w5 : Str) (kids : List Item) :
+    printI (.comp n w1 w2 w3 w4 w5 kids) =
+      ('<' :: (w1 ++ (n ++ (w2 ++ ['>'])))) ++ (printL kids ++
+        ('<' :: (w4 ++ '/' :: (w3 ++ (n ++ (w5 ++ ['>'])))))) := by
+  simp [printI, openTag, closeTag]
+
+theorem printI_var_eq (n w1 w2 : Str) :
+    printI (.var n w1 w2) = '{' :: '{' :: (w1 ++ (n ++ (w2 ++ ['}', '}']))) := by
+  simp [printI]
+
+theorem isWs_dollar : isWs '$' = false := by decide
+theorem isWs_lt : isWs '<' = false := by decide
+theorem isWs_gt : isWs '>' = false := by decide
+theorem isWs_slash : isWs '/' = false := by decide
+theorem isWs_lb : isWs '{' = false := by decide
+theorem isWs_rb : isWs '}' = false := by decide
+theorem isWs_comma : isWs ',' = false := by decide
+theorem nameChar_dollar : nameChar '$' = false := by decide
+theorem nameChar_lt : nameChar '<' = false := by decide
+theorem nameChar_gt : nameChar '>' = false := by decide
+theorem nameChar_slash : nameChar '/' = false := by decide
+theorem nameChar_lb : nameChar '{' = false := by decide
+theorem nameChar_rb : nameChar '}' = false := by decide
+theorem nameChar_comma : nameChar ',' = false := by decide
+
+theorem wfI_var_spec {n w1 w2 x : Str} (h : wfI (.var n w1 w2) x = true) :
+    nameOk "var_".toList n = true ∧ wsOk w1 = true ∧ wsOk w2 = true := by
+  simp only [wfI, Bool.and_eq_true] at h
+  exact ⟨h.1.1, h.1.2, h.2⟩
+
+theorem wfI_comp_spec {n w1 w2 w3 w4 w5 x : Str} {kids : List Item}
+    (h : wfI (.comp n w1 w2 w3 w4 w5 kids) x = true) :
+    nameOk "comp_".toList n = true ∧ wsOk w1 = true ∧ wsOk w2 = true ∧ wsOk w3 = true ∧
+      wsOk w4 = true ∧ wsOk w5 = true ∧ wfL kids = true := by
+  simp only [wfI, Bool.and_eq_true] at h
+  exact ⟨h.1.1.1.1.1.1, h.1.1.1.1.1.2, h.1.1.1.1.2, h.1.1.1.2, h.1.1.2, h.1.2, h.2⟩
+
+mutual
+theorem fk_I : ∀ (i : Item) (x z : Str), wfI i x = true → Stop z →
+    occIn ['$', 't', '('] (printI i) (x ++ z) = false
+  | .text s, x, z, h, hz => by
+    have := (textOk_spec (by simpa [wfI] using h)).2.2
+    simp only [printI]
+    exact occIn_stop' _ _ _ _ (by decide) hz this
+  | .var n w1 w2, x, z, h, _ => by
+    obtain ⟨hn, h1, h2⟩ := wfI_var_spec h
+    rw [printI_var_eq]
+    apply occIn_notin
+    have := pad_notin h1 (nameOk_spec hn).1 h2 isWs_dollar nameChar_dollar
+    simp only [List.mem_cons, List.mem_append, not_or] at this ⊢
+    refine ⟨by decide, by decide, this.1, this.2.1, this.2.2, by decide, by decide, ?_⟩
+    exact List.not_mem_nil
+  | .comp n w1 w2 w3 w4 w5 kids, x, z, h, _ => by
+    obtain ⟨hn, h1, h2, h3, h4, h5, hk⟩ := wfI_comp_spec h
+    have hn' := (nameOk_spec hn).1
+    rw [printI_comp_eq, occIn_append, occIn_append]
+    have a : occIn ['$', 't', '('] ('<' :: (w1 ++ (n ++ (w2 ++ ['>']))))
+        (printL kids ++ '<' :: (w4 ++ '/' :: (w3 ++ (n ++ (w5 ++ ['>'])))) ++ (x ++ z)) = false := by
+      apply occIn_notin
+      have := pad_notin h1 hn' h2 isWs_dollar nameChar_dollar
+      simp only [List.mem_cons, List.mem_append, not_or] at this ⊢
+      exact ⟨by decide, this.1, this.2.1, this.2.2, by decide, List.not_mem_nil⟩
+    have b := fk_L kids ('<' :: (w4 ++ '/' :: (w3 ++ (n ++ (w5 ++ ['>'])))) ++ (x ++ z)) hk
+      (Or.inr ⟨_, rfl⟩)
+    have c : occIn ['$', 't', '('] ('<' :: (w4 ++ '/' :: (w3 ++ (n ++ (w5 ++ ['>'])))))
+        (x ++ z) = false := by
+      apply occIn_notin
+      have := pad_notin h3 hn' h5 isWs_dollar nameChar_dollar
+      simp only [List.mem_cons, List.mem_append, not_or] at this ⊢
+      exact ⟨by decide, ws_notin h4 isWs_dollar, by decide, this.1, this.2.1, this.2.2, by decide,
+        List.not_mem_nil⟩
+    rw [a, b, c]; rfl
+theorem fk_L : ∀ (t : List Item) (z : Str), wfL t = true → Stop z →
+    occIn ['$', 't', '('] (printL t) z = false
+  | [], _, _, _ => rfl
+  | i :: is, z, h, hz => by
+    obtain ⟨h1, h2⟩ := wfL_cons h
+    rw [printL, occIn_append, fk_I i (printL is) z h1 hz, fk_L is z h2 hz]; rfl
+end
+
+/-- a printed well-formed list contains no `$t(` -/
+theorem splitOnce_fk_none (t : List Item) (h : wfL t = true) :
+    splitOnce ['$', 't', '('] (printL t) = none := by
+  have := splitOnce_occIn_none _ _ [] (fk_L t [] h (Or.inl rfl)) rfl
+  simpa using this
+
+/-! ### the finders of `Parse.newF` where they do not apply -/
+
+theorem fkPat : "$t(".toList = ['$', 't', '('] := rfl
+theorem brPat : "{{".toList = ['{', '{'] := rfl
+theorem brPat' : "}}".toList = ['}', '}'] := rfl
+
+theorem findForeignKey_none (rec_ : Str → Res PV) (v : Str)
+    (h : splitOnce ['$', 't', '('] v = none) : findForeignKey rec_ v = none := by
+  simp [findForeignKey, fkPat, h]
+
+theorem findOpeningTag_none (v : Str) (h : '<' ∉ v) : findOpeningTag v = none := by
+  simp [findOpeningTag, splitOnceC_none _ _ h]
+
+theorem findComponent_none (rec_ : Str → Res PV) (v : Str) (h : '<' ∉ v) :
+    findComponent rec_ v = none := by
+  simp [findComponent, findValidComponent, findOpeningTag_none v h]
+
+theorem findVariable_none (rec_ : Str → Res PV) (v : Str)
+    (h : splitOnce ['{', '{'] v = none) : findVariable rec_ v = none := by
+  simp [findVariable, brPat, h]
+
+/-- `find_variable` on `T {{w1 n w2}} R` when no `{{` starts inside `T` -/
+theorem findVariable_var (rec_ : Str → Res PV) (T n w1 w2 R : Str) (b a : PV)
+    (hT : occIn ['{', '{'] T ('{' :: '{' :: (w1 ++ (n ++ (w2 ++ '}' :: '}' :: R)))) = false)
+    (h1 : wsOk w1 = true) (h2 : wsOk w2 = true) (hn : nameOk "var_".toList n = true)
+    (hb : rec_ T = .ok b) (ha : rec_ R = .ok a) :
+    findVariable rec_ (T ++ '{' :: '{' :: (w1 ++ (n ++ (w2 ++ '}' :: '}' :: R)))) =
+      some (.ok (.bloc [b, .var ("var_".toList ++ n) .none, a])) := by
+  obtain ⟨hn', hk⟩ := nameOk_spec hn
+  have s1 : splitOnce ['{', '{'] (T ++ '{' :: '{' :: (w1 ++ (n ++ (w2 ++ '}' :: '}' :: R)))) =
+      some (T, w1 ++ (n ++ (w2 ++ '}' :: '}' :: R))) := by
+    have := splitOnce_occIn_some ['{', '{'] T _ [] (w1 ++ (n ++ (w2 ++ '}' :: '}' :: R))) hT
+      (by simp [splitOnce])
+    simpa using this
+  have s2 : splitOnce ['}', '}'] (w1 ++ (n ++ (w2 ++ '}' :: '}' :: R))) =
+      some (w1 ++ (n ++ w2), R) := by
+    have := splitOnce_occIn_some ['}', '}'] (w1 ++ (n ++ w2)) ('}' :: '}' :: R) [] R
+      (occIn_notin _ _ _ _ (pad_notin h1 hn' h2 isWs_rb nameChar_rb)) (by simp [splitOnce])
+    simpa using this
+  simp only [findVariable, brPat, brPat', s1, s2, trim_pad _ _ _ h1 h2 (name_noWs hn'), hb, ha,
+    splitOnceC_none ',' n (name_notin hn' nameChar_comma), hk]
+
+/-! ### lists without components: all text, or a first variable -/
+
+theorem split_var (t : List Item) (hc : CompFree t) :
+    AllText t ∨ ∃ texts n w1 w2 post, t = texts ++ Item.var n w1 w2 :: post ∧ AllText texts := by
+  induction t with
+  | nil => left; intro i hi; cases hi
+  | cons i is ih =>
+    have hi := hc i (by simp)
+    have his : CompFree is := fun j hj => hc j (by simp [hj])
+    cases i with
+    | text s =>
+      rcases ih his with h | ⟨texts, n, w1, w2, post, rfl, ht⟩
+      · left
+        intro j hj
+        rcases List.mem_cons.1 hj with rfl | hj
+        · rfl
+        · exact h j hj
+      · right
+        refine ⟨Item.text s :: texts, n, w1, w2, post, rfl, ?_⟩
+        intro j hj
+        rcases List.mem_cons.1 hj with rfl | hj
+        · rfl
+        · exact ht j hj
+    | var n w1 w2 =>
+      right
+      exact ⟨[], n, w1, w2, is, rfl, fun j hj => by cases hj⟩
+    | comp => simp [isComp] at hi
+
+theorem compFree_noLt (t : List Item) (hc : CompFree t) (h : wfL t = true) : '<' ∉ printL t := by
+  induction t with
+  | nil => simp [printL]
+  | cons i is ih =>
+    have hi := hc i (by simp)
+    have his : CompFree is := fun j hj => hc j (by simp [hj])
+    obtain ⟨h1, h2⟩ := wfL_cons h
+    have := ih his h2
+    cases i with
+    | text s =>
+      have a := (textOk_spec (by simpa [wfI] using h1)).1
+      simp only [printL, printI, List.mem_append, not_or]
+      exact ⟨a, this⟩
+    | var n w1 w2 =>
+      obtain ⟨hn, hw1, hw2⟩ := wfI_var_spec h1
+      have p := pad_notin hw1 (nameOk_spec hn).1 hw2 isWs_lt nameChar_lt
+      rw [printL, printI_var_eq]
+      simp only [List.mem_cons, List.mem_append, not_or] at p ⊢
+      exact ⟨⟨by decide, by decide, p.1, p.2.1, p.2.2, by decide, by decide, List.not_mem_nil⟩, this⟩
+    | comp => simp [isComp] at hi
+
+theorem compFree_append_left {a b : List Item} (h : CompFree (a ++ b)) : CompFree a :=
+  fun i hi => h i (by simp [hi])
+theorem compFree_append_right {a b : List Item} (h : CompFree (a ++ b)) : CompFree b :=
+  fun i hi => h i (by simp [hi])
+theorem compFree_of_allText {a : List Item} (h : AllText a) : CompFree a := by
+  intro i hi
+  have := h i hi
+  cases i <;> simp_all [isText, isComp]
+
+/-- a run of text items is read as one literal -/
+theorem newF_texts (fuel : Nat) (t : List Item) (ht : AllText t) (h : wfL t = true) :
+    newF (fuel + 1) (printL t) = .ok (.lit (.str (printL t) none)) := by
+  obtain ⟨a, b, _⟩ := texts_spec t [] ht (by simpa using h)
+  have s : splitOnce ['{', '{'] (printL t) = none := by
+    have := splitOnce_occIn_none _ _ [] b rfl
+    simpa [printL] using this
+  simp only [newF, findForeignKey_none _ _ (splitOnce_fk_none t h), findComponent_none _ _ a,
+    findVariable_none _ _ s]
+
+theorem printL_var_split (texts post : List Item) (n w1 w2 : Str) :
+    printL (texts ++ Item.var n w1 w2 :: post) =
+      printL texts ++ '{' :: '{' :: (w1 ++ (n ++ (w2 ++ '}' :: '}' :: printL post))) := by
+  rw [printL_append, printL, printI_var_append]
+
+/-- no component: the first variable splits the string, both sides are parsed on their own -/
+theorem newF_var (fuel : Nat) (texts post : List Item) (n w1 w2 : Str) (ht : AllText texts)
+    (hc : CompFree (texts ++ Item.var n w1 w2 :: post))
+    (h : wfL (texts ++ Item.var n w1 w2 :: post) = true) (b a : PV)
+    (hb : newF fuel (printL texts) = .ok b) (ha : newF fuel (printL post) = .ok a) :
+    newF (fuel + 1) (printL (texts ++ Item.var n w1 w2 :: post)) =
+      .ok (.bloc [b, .var ("var_".toList ++ n) .none, a]) := by
+  obtain ⟨_, o, _⟩ := texts_spec texts _ ht h
+  obtain ⟨hv, _⟩ := wfL_cons (wfL_append_right _ _ h)
+  obtain ⟨hn, h1, h2⟩ := wfI_var_spec hv
+  have hv : findVariable (newF fuel) (printL (texts ++ Item.var n w1 w2 :: post)) =
+      some (.ok (.bloc [b, .var ("var_".toList ++ n) .none, a])) := by
+    rw [printL_var_split]
+    rw [printL, printI_var_append] at o
+    exact findVariable_var (newF fuel) _ n w1 w2 _ b a o h1 h2 hn hb ha
+  simp only [newF, findForeignKey_none _ _ (splitOnce_fk_none _ h),
+    findComponent_none _ _ (compFree_noLt _ hc h), hv]
+
+/-! ### `closingScan` on printed well-formed items (the Dyck invariant) -/
+
+theorem closingScan_skip (key s x : Str) (p d : Nat) (f : Option (Nat × Nat)) (h : '<' ∉ s) :
+    closingScan key (s ++ x) p d f = closingScan key x (p + s.length) d f := by
+  induction s generalizing p with
+  | nil => simp
+  | cons c cs ih =>
+    have hc : c ≠ '<' := fun e => h (by simp [e])
+    have hcs : '<' ∉ cs := fun e => h (by simp [e])
+    have hb : (c == '<') = false := by simpa using hc
+    rw [List.cons_append, closingScan]
+    simp only [hb, Bool.false_eq_true, if_false]
+    rw [ih _ hcs]
+    have : p + 1 + cs.length = p + (c :: cs).length := by simp; omega
+    rw [this]
+
+theorem stripPrefix_slash_none (n : Str) (h : '/' ∉ n) : stripPrefix ['/'] n = none := by
+  cases n with
+  | nil => simp [stripPrefix]
+  | cons c cs =>
+    have hc : c ≠ '/' := fun e => h (by simp [e])
+    simp [stripPrefix, List.isPrefixOf, hc.symm]
+
+/-- an opening tag `<w1 n w2>`: depth goes up iff its name is the key -/
+theorem closingScan_open (key n w1 w2 x : Str) (p d : Nat) (f : Option (Nat × Nat))
+    (hn : n.all nameChar = true) (h1 : wsOk w1 = true) (h2 : wsOk w2 = true) :
+    closingScan key ('<' :: (w1 ++ (n ++ (w2 ++ '>' :: x)))) p d f =
+      closingScan key x (p + (w1.length + n.length + w2.length + 2))
+        (if n = key then d + 1 else d) f := by
+  have hs : splitOnceC '>' (w1 ++ (n ++ (w2 ++ '>' :: x))) = some (w1 ++ (n ++ w2), x) := by
+    have := splitOnceC_notin '>' (w1 ++ (n ++ w2)) x (pad_notin h1 hn h2 isWs_gt nameChar_gt)
+    simpa using this
+  have hlt : '<' ∉ w1 ++ (n ++ (w2 ++ ['>'])) := by
+    have := pad_notin h1 hn h2 isWs_lt nameChar_lt
+    simp only [List.mem_append, not_or, List.mem_cons] at this ⊢
+    exact ⟨this.1, this.2.1, this.2.2, by decide, List.not_mem_nil⟩
+  have hk : w1 ++ (n ++ (w2 ++ '>' :: x)) = (w1 ++ (n ++ (w2 ++ ['>']))) ++ x := by simp
+  rw [closingScan]
+  simp only [beq_self_eq_true, if_true, hs, trim_pad _ _ _ h1 h2 (name_noWs hn),
+    stripPrefix_slash_none n (name_notin hn nameChar_slash)]
+  have hl : ∀ q, q + 1 + (w1 ++ (n ++ (w2 ++ ['>']))).length =
+      q + (w1.length + n.length + w2.length + 2) := by
+    intro q; simp only [List.length_append, List.length_cons, List.length_nil]; omega
+  by_cases e : n = key
+  · simp only [e, beq_self_eq_true, if_true]
+    rw [← e, hk, closingScan_skip _ _ _ _ _ _ hlt, hl]
+  · have : (n == key) = false := by simpa using e
+    simp only [this, Bool.false_eq_true, if_false, e]
+    rw [hk, closingScan_skip _ _ _ _ _ _ hlt, hl]
+
+/-- the text between `<` and `>` of a closing tag is read as `/` + (something trimming to) the name -/
+theorem close_trim (n w3 w4 w5 : Str) (hn : n.all nameChar = true) (h3 : wsOk w3 = true)
+    (h4 : wsOk w4 = true) (h5 : wsOk w5 = true) :
+    ∃ r, trim (w4 ++ '/' :: (w3 ++ (n ++ w5))) = '/' :: r ∧ trimStart r = n := by
+  have e1 : trim (w4 ++ '/' :: (w3 ++ (n ++ w5))) = trimEnd ('/' :: (w3 ++ n)) := by
+    unfold trim
+    rw [trimStart_ws_append _ _ h4, trimStart_cons _ _ isWs_slash]
+    have : '/' :: (w3 ++ (n ++ w5)) = ('/' :: (w3 ++ n)) ++ w5 := by simp
+    rw [this, trimEnd_append_ws _ _ h5]
+  cases n with
+  | nil =>
+    refine ⟨[], ?_, rfl⟩
+    rw [e1]
+    have : '/' :: (w3 ++ []) = ['/'] ++ w3 := by simp
+    rw [this, trimEnd_append_ws _ _ h3]
+    exact trimEnd_concat [] '/' isWs_slash
+  | cons c cs =>
+    refine ⟨w3 ++ c :: cs, ?_, ?_⟩
+    · rw [e1]
+      have : '/' :: (w3 ++ c :: cs) = ('/' :: w3) ++ (c :: cs) := by simp
+      rw [this, trimEnd_append_noWs _ _ (by simp) (name_noWs hn)]
+    · rw [trimStart_ws_append _ _ h3, trimStart_cons _ _ (name_noWs hn c (by simp))]
+
+/-- a closing tag `<w4/w3 n w5>` -/
+theorem closingScan_close (key n w3 w4 w5 x : Str) (p d : Nat) (f : Option (Nat × Nat))
+    (hn : n.all nameChar = true) (h3 : wsOk w3 = true) (h4 : wsOk w4 = true) (h5 : wsOk w5 = true) :
+    closingScan key ('<' :: (w4 ++ '/' :: (w3 ++ (n ++ (w5 ++ '>' :: x))))) p d f =
+      closingScan key x (p + (w4.length + 1 + w3.length + n.length + w5.length + 2))
+        (if n = key then d - 1 else d)
+        (if n = key ∧ d = 0 then
+          some (p, p + (w4.length + 1 + w3.length + n.length + w5.length) + 2) else f) := by
+  have hs : splitOnceC '>' (w4 ++ '/' :: (w3 ++ (n ++ (w5 ++ '>' :: x)))) =
+      some (w4 ++ '/' :: (w3 ++ (n ++ w5)), x) := by
+    have hnot : '>' ∉ w4 ++ '/' :: (w3 ++ (n ++ w5)) := by
+      have := pad_notin h3 hn h5 isWs_gt nameChar_gt
+      simp only [List.mem_append, not_or, List.mem_cons] at this ⊢
+      exact ⟨ws_notin h4 isWs_gt, by decide, this.1, this.2.1, this.2.2⟩
+    have := splitOnceC_notin '>' _ x hnot
+    simpa using this
+  have hlt : '<' ∉ w4 ++ '/' :: (w3 ++ (n ++ (w5 ++ ['>']))) := by
+    have := pad_notin h3 hn h5 isWs_lt nameChar_lt
+    simp only [List.mem_append, not_or, List.mem_cons] at this ⊢
+    exact ⟨ws_notin h4 isWs_lt, by decide, this.1, this.2.1, this.2.2, by decide, List.not_mem_nil⟩
+  have hk : w4 ++ '/' :: (w3 ++ (n ++ (w5 ++ '>' :: x))) =
+      (w4 ++ '/' :: (w3 ++ (n ++ (w5 ++ ['>'])))) ++ x := by simp
+  obtain ⟨r, hr1, hr2⟩ := close_trim n w3 w4 w5 hn h3 h4 h5
+  have hsp : stripPrefix ['/'] ('/' :: r) = some r := by simp [stripPrefix]
+  have hl : ∀ q, q + 1 + (w4 ++ '/' :: (w3 ++ (n ++ (w5 ++ ['>'])))).length =
+      q + (w4.length + 1 + w3.length + n.length + w5.length + 2) := by
+    intro q; simp only [List.length_append, List.length_cons, List.length_nil]; omega
+  have hl2 : (w4 ++ '/' :: (w3 ++ (n ++ w5))).length =
+      w4.length + 1 + w3.length + n.length + w5.length := by
+    simp only [List.length_append, List.length_cons]; omega
+  rw [closingScan]
+  simp only [beq_self_eq_true, if_true, hs, hr1, hsp, hr2, hl2]
+  by_cases e : n = key
+  · subst e
+    have e' : (n != n) = false := by simp
+    simp only [e', Bool.false_eq_true, if_false, true_and, if_true]
+    by_cases hd : d = 0
+    · subst hd
+      simp only [beq_self_eq_true, if_true]
+      rw [hk, closingScan_skip _ _ _ _ _ _ hlt, hl]
+    · have : (d == 0) = false := by simpa using hd
+      simp only [this, Bool.false_eq_true, if_false, hd]
+      rw [hk, closingScan_skip _ _ _ _ _ _ hlt, hl]
+  · have e' : (n != key) = true := by simpa using e
+    simp only [e', if_true, e, false_and, if_false]
+    rw [hk, closingScan_skip _ _ _ _ _ _ hlt, hl]
+
+theorem printI_comp_length (n w1 w2 w3 w4 w5 : Str) (kids : List Item) :
+    (printI (.comp n w1 w2 w3 w4 w5 kids)).length =
+      (w1.length + n.length + w2.length + 2) + (printL kids).length +
+        (w4.length + 1 + w3.length + n.length + w5.length + 2) := by
+  rw [printI_comp_eq]
+  simp only [List.length_append, List.length_cons, List.length_nil]
+  omega
+
+mutual
+/-- **Dyck invariant.**  Printed well-formed items are transparent to the tag scan: whatever the
+    key, depth and best candidate are before, they are the same after (opening and closing tags of
+    the key cancel; inner closing tags are met at depth ≥ 1, so they never become the candidate). -/
+theorem scan_I : ∀ (i : Item) (x0 key x : Str) (p d : Nat) (f : Option (Nat × Nat)),
+    wfI i x0 = true →
+    closingScan key (printI i ++ x) p d f = closingScan key x (p + (printI i).length) d f
+  | .text s, x0, key, x, p, d, f, h => by
+    have := (textOk_spec (by simpa [wfI] using h)).1
+    simp only [printI]
+    exact closingScan_skip _ _ _ _ _ _ this
+  | .var n w1 w2, x0, key, x, p, d, f, h => by
+    obtain ⟨hn, h1, h2⟩ := wfI_var_spec h
+    apply closingScan_skip
+    have q := pad_notin h1 (nameOk_spec hn).1 h2 isWs_lt nameChar_lt
+    rw [printI_var_eq]
+    simp only [List.mem_cons, List.mem_append, not_or] at q ⊢
+    exact ⟨by decide, by decide, q.1, q.2.1, q.2.2, by decide, by decide, List.not_mem_nil⟩
+  | .comp n w1 w2 w3 w4 w5 kids, x0, key, x, p, d, f, h => by
+    obtain ⟨hn, h1, h2, h3, h4, h5, hk⟩ := wfI_comp_spec h
+    have hn' := (nameOk_spec hn).1
+    rw [printI_comp_append, closingScan_open _ _ _ _ _ _ _ _ hn' h1 h2, scan_L kids _ _ _ _ _ hk,
+      closingScan_close _ _ _ _ _ _ _ _ _ hn' h3 h4 h5, printI_comp_length]
+    by_cases e : n = key
+    · simp only [e, if_true, true_and, Nat.add_sub_cancel, Nat.succ_ne_zero, if_false,
+        Nat.add_assoc]
+    · simp only [e, if_false, false_and, Nat.add_assoc]
+theorem scan_L : ∀ (t : List Item) (key x : Str) (p d : Nat) (f : Option (Nat × Nat)),
+    wfL t = true →
+    closingScan key (printL t ++ x) p d f = closingScan key x (p + (printL t).length) d f
+  | [], _, _, _, _, _, _ => by simp [printL]
+  | i :: is, key, x, p, d, f, h => by
+    obtain ⟨h1, h2⟩ := wfL_cons h
+    rw [printL, List.append_assoc, scan_I i _ _ _ _ _ _ h1, scan_L is _ _ _ _ _ h2,
+      List.length_append, Nat.add_assoc]
+end
+
+/-- **The matching closing tag is the one found**: scanning `kids </n> post` for the key `n` from
+    depth 0 returns the position of that closing tag — whatever well-formed `kids` (components named
+    `n` included) and `post` (further complete `<n>…</n>` included) are. -/
+theorem closingScan_found (n w3 w4 w5 : Str) (kids post : List Item)
+    (hn : n.all nameChar = true) (h3 : wsOk w3 = true) (h4 : wsOk w4 = true) (h5 : wsOk w5 = true)
+    (hk : wfL kids = true) (hp : wfL post = true) :
+    closingScan n (printL kids ++ '<' :: (w4 ++ '/' :: (w3 ++ (n ++ (w5 ++ '>' :: printL post)))))
+        0 0 none =
+      some ((printL kids).length,
+        (printL kids).length + (w4.length + 1 + w3.length + n.length + w5.length) + 2) := by
+  rw [scan_L kids _ _ _ _ _ hk, closingScan_close _ _ _ _ _ _ _ _ _ hn h3 h4 h5]
+  have := scan_L post n [] (0 + (printL kids).length +
+      (w4.length + 1 + w3.length + n.length + w5.length + 2)) (0 - 1)
+    (some (0 + (printL kids).length,
+      0 + (printL kids).length + (w4.length + 1 + w3.length + n.length + w5.length) + 2)) hp
+  simp only [List.append_nil] at this
+  simp only [and_self, if_true]
+  rw [this]
+  simp [closingScan]
+
+theorem drop_two (A B C : Str) (k : Nat) (hk : k = A.length + B.length) :
+    (A ++ (B ++ C)).drop k = C := by
+  subst hk
+  rw [← List.append_assoc, ← List.length_append, List.drop_left]
+
+/-- `find_closing_tag` on `kids </n> post` -/
+theorem findClosingTag_found (n w3 w4 w5 : Str) (kids post : List Item)
+    (hn : nameOk "comp_".toList n = true) (h3 : wsOk w3 = true) (h4 : wsOk w4 = true)
+    (h5 : wsOk w5 = true) (hk : wfL kids = true) (hp : wfL post = true) :
+    findClosingTag
+        (printL kids ++ '<' :: (w4 ++ '/' :: (w3 ++ (n ++ (w5 ++ '>' :: printL post))))) n =
+      some ("comp_".toList ++ n, printL kids, printL post) := by
+  obtain ⟨hn', hkey⟩ := nameOk_spec hn
+  simp only [findClosingTag, hkey, closingScan_found n w3 w4 w5 kids post hn' h3 h4 h5 hk hp,
+    List.take_left]
+  have : '<' :: (w4 ++ '/' :: (w3 ++ (n ++ (w5 ++ '>' :: printL post)))) =
+      ('<' :: (w4 ++ '/' :: (w3 ++ (n ++ (w5 ++ ['>']))))) ++ printL post := by simp
+  rw [this, drop_two]
+  simp only [List.length_append, List.length_cons, List.length_nil]
+  omega
+
+theorem printL_comp_split (pre post kids : List Item) (n w1 w2 w3 w4 w5 : Str) :
+    printL (pre ++ Item.comp n w1 w2 w3 w4 w5 kids :: post) =
+      printL pre ++ '<' :: (w1 ++ (n ++ (w2 ++ '>' :: (printL kids ++
+        '<' :: (w4 ++ '/' :: (w3 ++ (n ++ (w5 ++ '>' :: printL post)))))))) := by
+  rw [printL_append, printL, printI_comp_append]
+
+/-- `find_valid_component`: the first `<` of the printed string opens the first component item, its
+    closing tag is found, nothing is skipped -/
+theorem findValidComponent_found (fuel : Nat) (pre post kids : List Item) (n w1 w2 w3 w4 w5 : Str)
+    (hpre : CompFree pre)
+    (h : wfL (pre ++ Item.comp n w1 w2 w3 w4 w5 kids :: post) = true) :
+    findValidComponent (fuel + 1) (printL (pre ++ Item.comp n w1 w2 w3 w4 w5 kids :: post)) 0 =
+      some ("comp_".toList ++ n, printL pre, printL kids, printL post) := by
+  obtain ⟨hc, hp⟩ := wfL_cons (wfL_append_right _ _ h)
+  obtain ⟨hn, h1, h2, h3, h4, h5, hk⟩ := wfI_comp_spec hc
+  have hn' := (nameOk_spec hn).1
+  have hlt := compFree_noLt pre hpre (wfL_append_left _ _ h)
+  rw [printL_comp_split]
+  have ho : findOpeningTag (printL pre ++ '<' :: (w1 ++ (n ++ (w2 ++ '>' :: (printL kids ++
+        '<' :: (w4 ++ '/' :: (w3 ++ (n ++ (w5 ++ '>' :: printL post))))))))) =
+      some (printL pre, n, printL kids ++
+        '<' :: (w4 ++ '/' :: (w3 ++ (n ++ (w5 ++ '>' :: printL post)))),
+        (printL pre).length + (w1 ++ (n ++ w2)).length + 2) := by
+    have hs : ∀ x, splitOnceC '>' (w1 ++ (n ++ (w2 ++ '>' :: x))) = some (w1 ++ (n ++ w2), x) := by
+      intro x
+      have := splitOnceC_notin '>' (w1 ++ (n ++ w2)) x (pad_notin h1 hn' h2 isWs_gt nameChar_gt)
+      simpa using this
+    simp only [findOpeningTag, splitOnceC_notin '<' _ _ hlt, hs,
+      trim_pad _ _ _ h1 h2 (name_noWs hn')]
+  simp only [findValidComponent, List.drop_zero, ho,
+    findClosingTag_found n w3 w4 w5 kids post hn h3 h4 h5 hk hp, Nat.zero_add, List.take_left]
+
+/-- a list of items: no component at top level, or a first component -/
+theorem split_comp (t : List Item) :
+    CompFree t ∨ ∃ pre n w1 w2 w3 w4 w5 kids post,
+      t = pre ++ Item.comp n w1 w2 w3 w4 w5 kids :: post ∧ CompFree pre := by
+  induction t with
+  | nil => left; intro i hi; cases hi
+  | cons i is ih =>
+    cases i with
+    | comp n w1 w2 w3 w4 w5 kids =>
+      right
+      exact ⟨[], n, w1, w2, w3, w4, w5, kids, is, rfl, fun j hj => by cases hj⟩
+    | text s =>
+      rcases ih with h | ⟨pre, n, w1, w2, w3, w4, w5, kids, post, rfl, hp⟩
+      · left
+        intro j hj
+        rcases List.mem_cons.1 hj with rfl | hj
+        · rfl
+        · exact h j hj
+      · right
+        refine ⟨Item.text s :: pre, n, w1, w2, w3, w4, w5, kids, post, rfl, ?_⟩
+        intro j hj
+        rcases List.mem_cons.1 hj with rfl | hj
+        · rfl
+        · exact hp j hj
+    | var m v1 v2 =>
+      rcases ih with h | ⟨pre, n, w1, w2, w3, w4, w5, kids, post, rfl, hp⟩
+      · left
+        intro j hj
+        rcases List.mem_cons.1 hj with rfl | hj
+        · rfl
+        · exact h j hj
+      · right
+        refine ⟨Item.var m v1 v2 :: pre, n, w1, w2, w3, w4, w5, kids, post, rfl, ?_⟩
+        intro j hj
+        rcases List.mem_cons.1 hj with rfl | hj
+        · rfl
+        · exact hp j hj
+
+/-- the first component splits the string into before / between / after, each parsed on its own -/
+theorem newF_comp (fuel : Nat) (pre post kids : List Item) (n w1 w2 w3 w4 w5 : Str)
+    (hpre : CompFree pre)
+    (h : wfL (pre ++ Item.comp n w1 w2 w3 w4 w5 kids :: post) = true) (b m a : PV)
+    (hb : newF fuel (printL pre) = .ok b) (hm : newF fuel (printL kids) = .ok m)
+    (ha : newF fuel (printL post) = .ok a) :
+    newF (fuel + 1) (printL (pre ++ Item.comp n w1 w2 w3 w4 w5 kids :: post)) =
+      .ok (.bloc [b, .comp ("comp_".toList ++ n) m, a]) := by
+  simp only [newF, findForeignKey_none _ _ (splitOnce_fk_none _ h), findComponent,
+    findValidComponent_found _ pre post kids n w1 w2 w3 w4 w5 hpre h, hb, hm, ha]
+
 end I18nVerif.Src
